@@ -271,6 +271,39 @@ def byte_filter_loop(body, acc, param=1):
     return {"next_block": nb, "some": some[0], "none": none[0], "elem_is_ref": not copied, "n_local": nt["dest"]["local"]}
 
 
+def tabulate_with_tail(body, acc, loop, max_state=2):
+    """Like tabulate, for a loop body that also looks at the accumulator's tail (`acc.last()`, `acc.is_empty()`):
+    the abstract state is (boolean flags, last byte of the output or None). Returns (state_locals, table) with
+    table[(byte, flags, last)] = (events, flags', last')."""
+    m = Micro(body, acc)
+    m.acc_readable = True
+    state = []
+    while True:
+        table = {}
+        try:
+            for bits in range(1 << len(state)):
+                sv = tuple(bool(bits >> i & 1) for i in range(len(state)))
+                for last in [None] + list(range(256)):
+                    for byte in range(256):
+                        env = {l: v for l, v in zip(state, sv)}
+                        env[loop["n_local"]] = ("opt", ("valref", byte) if loop["elem_is_ref"] else byte)
+                        accv = [] if last is None else ["*", last]
+                        try:
+                            end, env2, ev = m.run(loop["some"], env, accv, {loop["next_block"]})
+                        except Left:
+                            table[(byte, sv, last)] = ("leaves-loop", None, None)
+                            continue
+                        if "pop" in ev:
+                            raise AnchorMissing("%s: the loop body removes bytes from the output" % body.path)
+                        nl = accv[-1] if accv and accv[-1] != "*" else (None if not accv else last)
+                        table[(byte, sv, last)] = (tuple(ev), tuple(env2[l] for l in state), nl)
+            return state, table
+        except Undefined as u:
+            if u.local in state or body.local_ty(u.local) != "bool" or len(state) >= max_state:
+                raise AnchorMissing("%s: loop-carried local _%d of type %s: not a boolean finite-state filter" % (body.path, u.local, body.local_ty(u.local)))
+            state.append(u.local)
+
+
 def tabulate(body, acc, loop, max_state=3):
     """Transfer function of the loop body: {(byte, state tuple): (events, state' tuple)} with the state locals
     (boolean loop-carried locals) discovered on the way. Returns (state_locals, table)."""
